@@ -770,7 +770,12 @@ MANIFEST = dict(
          "(C20_sizing_dominates, C20_need_is_enough: a joint invariant of the two passes of convert_struct_from_object, "
          "all nesting depths); converting an initializer into a member changes no byte outside that member "
          "(C20_assign_stays_inside, frame); with a keyword initializer every byte outside the named members is zero and "
-         "the block has sizeof bytes (C20_unnamed_bytes_are_zero). C20_new_is_assign is definitional (one fill in the "
+         "the block has sizeof bytes (C20_unnamed_bytes_are_zero); a positional initializer IS the keyword initializer over "
+         "the leading fields without BF_IGNORE_IN_CTOR, a union sequence sets its first member only and longer ones are "
+         "refused (C20_positional_is_keyword, C20_positional_too_long, C20_union_sequence_first_member); array sequences "
+         "fill the leading items and leave the rest zero (C20_array_sequence_leading); ffi.sizeof(p[0]) / sizeof(p) = the "
+         "size the sizing pass computed = the real block size, var-sized structs included (C20_sizeof_is_alloc_size, with "
+         "direct_newp's stored length and _cdata_var_byte_size modelled). C20_new_is_assign is definitional (one fill in the "
          "model, as one convert_from_object in the C code): the equality new(T, init) == new(T); p[0] = init is decided by "
          "the correspondence on the real code. The earlier refutation for arrays of var-sized structs (heap overflow, "
          "finding array_of_varsize_struct) was repaired in /repo commit 812503f; the guard is modelled (item_guard) and "
@@ -780,6 +785,5 @@ MANIFEST = dict(
     note="Trusted: Coq kernel; hand model C20/Model.v (tied by differential testing, not by translation); layouts are read "
          "from real cffi (C01 owns them) and checked against wf_type on each case; primitive conversions abstracted "
          "(C03/C05); Py_ssize_t wrap-around test modelled as a bound. Not proved: which values are written (tied by "
-         "correspondence only); positional = keyword over the leading fields and ffi.sizeof(p[0]) = block size for "
-         "var-sized structs are checked on the implementation, not proved.",
+         "correspondence only).",
     design_ref="DESIGN.md §4 C20")
